@@ -57,6 +57,39 @@ def t1_callee_context(ctx: Ctx):
     ks = [k for k in calls_in(vc) if call_name(k) == 'self._visit_expr']
     good = len(ks) == 1 and norm(ks[0].args[0]) == 'stmt.ctx' and norm(ks[0].args[1]) in ('_Ctx(ctx.stmts, True)', '_Ctx(ctx.stmts, is_ctx_expr=True)')
     ctx.check(good, INLINE, vc, '_FuncInline._visit_context', 'the `with` header is visited with is_ctx_expr=True', f'got {[norm(k) for k in ks]}')
+    # the arguments of a call inlined from a `with` header are evaluated exactly too: the binding `name = arg` that is
+    # emitted ahead of the statement must sit under REAL whenever the call site is a header and the argument computes
+    # anything (a plain variable read rounds nothing)
+    from ..symenv import execute, show
+    ex = execute(fn, {}, {}, loop_passes=1)
+    assigns = [e for e in ex.calls('Assign') if len(e.args) >= 3 and 'self._visit_expr(' in show(e.args[2]) and 'e.args' in show(e.args[2])]
+    if not assigns:
+        raise ShapeError('_visit_call: argument binding not found')
+    wraps = [e for e in ex.calls('ContextStmt') if any(g == ('attr', ('sym', 'ctx'), 'is_ctx_expr') or 'ctx.is_ctx_expr' in show(g) for g in e.guards)
+             and len(e.args) >= 3 and show(e.args[1]).startswith('ForeignVal(REAL') and 'Assign(' in show(e.args[2])]
+    base = set().union(*[set(a.guards) for a in assigns])
+
+    def _exemption(g) -> bool:
+        return g[0] == 'not' and g[1][0] == 'call' and g[1][1] == 'isinstance' and show(g[1][2][1]) == 'Var' \
+            and 'self._visit_expr(' in show(g[1][2][0])
+    exempt_ok = all(all(show(g) == 'ctx.is_ctx_expr' or _exemption(g) for g in _flatten_and([g for g in w.guards if g not in base])) for w in wraps)
+    def _emits_wrap(a) -> bool:
+        if a[0] == 'ite':
+            return _emits_wrap(a[2]) and ('ctx.is_ctx_expr' in show(a[1])) or (_emits_wrap(a[2]) and _emits_wrap(a[3]))
+        return a[0] == 'call' and a[1] == 'ContextStmt' and show(a).startswith('ContextStmt(UnderscoreId(), ForeignVal(REAL') and 'Assign(' in show(a[2][2])
+    emitted = any(e.args and _emits_wrap(e.args[0]) for e in ex.calls('ctx.stmts.append'))
+    ctx.check(bool(wraps) and exempt_ok and emitted, INLINE, fn, q, 'in a `with` header, a computed argument is bound under REAL (only a plain variable read is exempt)',
+              'argument bindings are emitted under the ambient context: `with fp.MPFixedContext(g(0 - k))` evaluates `0 - k` exactly, the inlined `t = 0 - k` does not')
+
+
+def _flatten_and(guards) -> list:
+    out = []
+    for g in guards:
+        if isinstance(g, tuple) and g and g[0] == 'and':
+            out += list(g[1])
+        else:
+            out.append(g)
+    return out
 
 
 # ----------------------------------------------------------------------
@@ -82,8 +115,18 @@ def p1_binding_and_renaming(ctx: Ctx):
     if i_bind is not None:
         loop = body[i_bind]
         b = [norm(s) for s in loop.body]  # type: ignore
-        good = b[0] == 'arg = self._visit_expr(arg, ctx)' and 'name = subst.get(param.name, param.name)' in ' '.join(b) \
-            and 'ctx.stmts.append(Assign(name, param.type, arg, e.loc))' in ' '.join(b)
+        # the binding statement reaches the output list as it is, or wrapped in a scope of its own
+        mk = [k for k in calls_in(loop) if call_name(k) == 'Assign' and [norm(a) for a in k.args] == ['name', 'param.type', 'arg', 'e.loc']]
+        carriers: set[str] = set()
+        defs = [(s.targets[0] if isinstance(s, ast.Assign) else s.target, s.value) for s in ast.walk(loop)
+                if (isinstance(s, ast.Assign) and len(s.targets) == 1) or (isinstance(s, ast.AnnAssign) and s.value is not None)]
+        for _ in range(len(defs) + 1):
+            for tgt, val in defs:
+                if isinstance(tgt, ast.Name) and any(x in mk or (isinstance(x, ast.Name) and x.id in carriers) for x in ast.walk(val)):
+                    carriers.add(tgt.id)
+        apps = [k for k in calls_in(loop) if call_name(k) == 'ctx.stmts.append' and k.args
+                and (any(x in mk for x in ast.walk(k.args[0])) or (isinstance(k.args[0], ast.Name) and k.args[0].id in carriers))]
+        good = b[0] == 'arg = self._visit_expr(arg, ctx)' and 'name = subst.get(param.name, param.name)' in ' '.join(b) and len(mk) == 1 and len(apps) == 1
         ctx.check(good, INLINE, loop, q, 'each argument is evaluated in order and bound to the (renamed) parameter before the body', f'loop body: {b}')
     # every non-free definition of the callee is renamed with a fresh name
     rn = [s for s in walk_no_nested(fn) if isinstance(s, ast.For) and norm(s.iter) == 'reachability.defs']
@@ -244,6 +287,14 @@ MUTANTS = [
     Mutant('callee-ctx-ignored', INLINE, "        if ast.ctx is not None:\n            # overriding context\n            stmt = ContextStmt(UnderscoreId(), ForeignVal(ast.ctx, None), ast.body, ast.loc)\n            ctx.stmts.append(stmt)\n        elif ctx.is_ctx_expr:",
            "        if ctx.is_ctx_expr:", 'C09.T1'),
     Mutant('header-call-under-ambient', INLINE, "stmt = ContextStmt(UnderscoreId(), ForeignVal(REAL, None), ast.body, ast.loc)", "stmt = ContextStmt(UnderscoreId(), ForeignVal(ast.ctx, None), ast.body, ast.loc)", 'C09.T1'),
+    Mutant('header-args-under-ambient', INLINE, "                if ctx.is_ctx_expr and not isinstance(arg, Var):", "                if False:", 'C09.T1',
+           'the defect repaired by the fix: commit (F36)'),
+    Mutant('header-args-wrapped-in-callee-ctx', INLINE, "                    bind = ContextStmt(UnderscoreId(), ForeignVal(REAL, None), StmtBlock([bind]), e.loc)",
+           "                    bind = ContextStmt(UnderscoreId(), ForeignVal(ast.ctx, None), StmtBlock([bind]), e.loc)", 'C09.T1'),
+    Mutant('header-args-literals-exempt', INLINE, "                if ctx.is_ctx_expr and not isinstance(arg, Var):", "                if ctx.is_ctx_expr and not isinstance(arg, (Var, BinaryOp)):", 'C09.T1'),
+    Mutant('header-arg-bind-not-emitted', INLINE, "                ctx.stmts.append(bind)", "                pass", 'C09.P1'),
+    Mutant('header-args-always-wrapped', INLINE, "                if ctx.is_ctx_expr and not isinstance(arg, Var):", "                if ctx.is_ctx_expr:", 'C09.T1',
+           'wrapping a plain variable read as well rounds nothing more: behaviour-preserving', expect='silent'),
     Mutant('args-bound-after-body', INLINE, "        # bind the return value to a fresh variable and splice into the current block\n        t = self.gensym.fresh('t')\n        _replace_ret(ast.body, t)",
            "        t = self.gensym.fresh('t')", 'C09.P1'),
     Mutant('callee-locals-not-renamed', INLINE, "            if isinstance(d, AssignDef) and not d.is_free:\n                subst[d.name] = self.gensym.refresh(d.name)", "            if False:\n                subst[d.name] = self.gensym.refresh(d.name)", 'C09.P1'),
